@@ -163,7 +163,7 @@ struct ProgressEngine : Engine
 	{
 		thorough = a.thorough(); pts.clear();
 		acfgs.clear(); AN = thorough ? 10 : 8; AK = thorough ? 3 : 2;
-		for (int r = 0; r < 3; ++r) for (int wp = 0; wp < tcpadv::N_WPLANS_ALL; ++wp) for (int rp : { 0, 1, 2, 3, 5, 6 }) for (int d = 0; d < 3; ++d) {
+		for (int r = 0; r < 3; ++r) for (int wp = 0; wp < tcpadv::N_WPLANS_ALL; ++wp) for (int rp : { 0, 1, 2, 3, 5, 6, 7, 8 }) for (int d = 0; d < 3; ++d) {
 			if (r == 2 && rp == 0 && !thorough) continue; // 50 kB/s with 7-byte reads: thorough only
 			acfgs.push_back(tcpadv::Cfg{ r, wp, rp, tcpadv::C_NEVER, d });
 		}
